@@ -13,7 +13,7 @@ def zone_paths(tin):
     def walk(t, ip, kp, search, sibs):
         k = jtree.kind(t)
         if k == 'obj':
-            for i, (key, v) in enumerate(t): walk(v, ip + (i,), kp + (key,), search, None)
+            for i, (key, v) in enumerate(t): walk(v, ip + (i,), kp + (key,), search or key in SEARCH_STAGES, None)   # a search stage at any depth ($facet, $lookup / $unionWith sub-pipelines, $rankFusion)
         elif k == 'arr':
             sib = [x for x in t if isinstance(x, str)]
             for i, v in enumerate(t): walk(v, ip + (i,), kp, search, sib)
